@@ -66,6 +66,7 @@ pub fn segments() -> Vec<Vec<String>> {
         vec!["# only comment"],
         vec!["$ cmd", "``two"],
         vec!["[7]"],
+        vec!["$ cmd", "out", "[0]"],
     ];
     for b in &bodies {
         for ticks in [3usize, 4] {
@@ -320,7 +321,7 @@ impl Engine for VcMd {
             Tier::Thorough => (5, 3),
         };
         format!(
-            "(1) all line sequences of length <= {d} over {} line kinds (LF; CRLF and missing final newline below the maximum length); (2) all sequences of <= {s} segments over {} segments (prose runs, front-matter, verbatim blocks, scrut blocks of 8 body shapes x 3/4-tick fences x with/without config) with every line-prefix truncation, LF and CRLF",
+            "(1) all line sequences of length <= {d} over {} line kinds (LF; CRLF and missing final newline below the maximum length); (2) all sequences of <= {s} segments over {} segments (prose runs, front-matter, verbatim blocks, scrut blocks of 9 body shapes x 3/4-tick fences x with/without config) with every line-prefix truncation, LF and CRLF",
             LINE_KINDS.len(),
             segments().len()
         )
